@@ -302,7 +302,7 @@ static int sbdf_read_objects(FILE* f, sbdf_valuetype v, int count, sbdf_object**
 			sbdf_obj_destroy(t);
 			return SBDF_ERROR_UNKNOWN_TYPEID;
 		}
-		t->data = malloc(sz * count);
+		t->data = malloc((size_t)sz * (size_t)count);
 		if (!t->data)
 		{
 			sbdf_obj_destroy(t);
@@ -549,6 +549,11 @@ static int sbdf_skip_objects(FILE* f, sbdf_valuetype v, int c, int packed_array)
 				return err;
 			}
 
+			if (skip < 0)
+			{
+				return SBDF_ERROR_INVALID_SIZE;
+			}
+
 			if (fseek(f, skip, SEEK_CUR))
 			{
 				return SBDF_ERROR_IO;
@@ -561,6 +566,11 @@ static int sbdf_skip_objects(FILE* f, sbdf_valuetype v, int c, int packed_array)
 				if (err = sbdf_read_int32(f, &skip))
 				{
 					return err;
+				}
+
+				if (skip < 0)
+				{
+					return SBDF_ERROR_INVALID_SIZE;
 				}
 
 				if (fseek(f, skip, SEEK_CUR))
@@ -581,7 +591,7 @@ static int sbdf_skip_objects(FILE* f, sbdf_valuetype v, int c, int packed_array)
 		{
 			return SBDF_ERROR_UNKNOWN_TYPEID;
 		}
-		if (fseek(f, c * sz, SEEK_CUR))
+		if (fseek(f, (long)c * sz, SEEK_CUR))
 		{
 			return SBDF_ERROR_IO;
 		}
